@@ -38,6 +38,9 @@ type stMutant struct {
 	body   func(f *stFunc) func(s *slip.Scope, args slip.List, depth int) slip.Object
 }
 
+// stDefine: mutants that are not plain functions (placers, macros) define their object themselves (selftest3.go).
+var stDefine = map[string]func(pkg *slip.Package, name string){}
+
 func fixnumArg(s *slip.Scope, depth int, args slip.List, i int, use string) int {
 	n, ok := args[i].(slip.Fixnum)
 	if !ok {
@@ -205,6 +208,11 @@ func defineSelftestFunctions() {
 		pkg := slip.DefPackage(selftestPkgName, nil, "C09 oracle self-test: reference built-ins with one guard removed")
 		for i := range stMutants {
 			m := &stMutants[i]
+			if def := stDefine[m.name]; def != nil {
+				def(pkg, m.name)
+				pkg.Export(m.name)
+				continue
+			}
 			slip.Define(
 				func(args slip.List) slip.Object {
 					f := stFunc{Function: slip.Function{Name: m.name, Args: args}}
